@@ -111,7 +111,7 @@ def _replay_path(prop, case, f):
   blob = json.dumps(_jsonable({'case': case, 'sub': f.get('sub'),
                                'kind': f.get('kind')}), sort_keys=True)
   h = hashlib.sha256(blob.encode()).hexdigest()[:12]
-  d = os.path.join(env.VERIF, 'replays', prop)
+  d = os.path.join(os.environ.get('VERIF_OUT_DIR', env.VERIF), 'replays', prop)
   os.makedirs(d, exist_ok=True)
   return os.path.join(d, f"{f.get('kind', 'fail')}_{h}.json")
 
@@ -143,7 +143,7 @@ def write_evidence(prop, tier, seed, level, coverage, assumptions, wall,
   ev = {'property_id': prop, 'tier': tier, 'seed': int(seed), 'level': level,
         'coverage': _jsonable(coverage), 'assumptions': assumptions,
         'wall_s': round(wall, 2), 'violations': int(violations)}
-  d = os.path.join(env.VERIF, 'evidence')
+  d = os.path.join(os.environ.get('VERIF_OUT_DIR', env.VERIF), 'evidence')
   os.makedirs(d, exist_ok=True)
   tmp = os.path.join(d, f'.{prop}.json.tmp')
   with open(tmp, 'w') as fh:
